@@ -440,3 +440,95 @@ Section TravExt.
     - intros x Hx. apply sort_desc_In in Hx. split; [now apply RootsIn|now right].
   Qed.
 End TravExt.
+
+(* ---- a comparator that answers "less" on identical arguments (LastWriteWins does: its last resort
+        First returns 1) sorts exactly like its irreflexive twin, duplicates included ---- *)
+Section GoSortTwin.
+  Variable A : Type.
+  Variables less1 less2 : A -> A -> bool.
+  Variable P : A -> Prop.
+  Hypothesis agree : forall a b, P a -> P b -> a <> b -> less1 a b = less2 a b.
+  Hypothesis diag1 : forall a, P a -> less1 a a = true.
+  Hypothesis irrefl2 : forall a, P a -> less2 a a = false.
+  Hypothesis trans2 : forall a b c, P a -> P b -> P c -> less2 a b = true -> less2 b c = true -> less2 a c = true.
+  Hypothesis total2 : forall a b, P a -> P b -> a <> b -> less2 a b = true \/ less2 b a = true.
+  Hypothesis dec : forall a b : A, {a = b} + {a <> b}.
+
+  Lemma ins_stays x rp : P x -> Forall P rp -> (forall z, In z rp -> less2 x z = false) -> ins less1 x rp = x :: rp.
+  Proof.
+    intros Px. induction rp as [|z rp IH]; intros HP H; cbn [ins]; [reflexivity|].
+    inversion HP as [|? ? Pz HP']; subst. destruct (dec x z) as [<-|Hne].
+    - rewrite (diag1 x Px). f_equal. apply IH; auto. intros w Hw. apply H. now right.
+    - rewrite (agree x z Px Pz Hne), (H z (or_introl eq_refl)). reflexivity.
+  Qed.
+
+  Lemma ins_twin x rp : P x -> Forall P rp ->
+    StronglySorted (fun a b => less2 a b = false) rp -> ins less1 x rp = ins less2 x rp.
+  Proof.
+    intros Px. induction rp as [|y rp IH]; intros HP S; cbn [ins]; [reflexivity|].
+    inversion HP as [|? ? Py HP']; subst. inversion S as [|? ? S' Hy]; subst.
+    destruct (dec x y) as [<-|Hne].
+    - rewrite (diag1 x Px), (irrefl2 x Px). f_equal. apply ins_stays; auto.
+      rewrite Forall_forall in Hy. exact Hy.
+    - rewrite (agree x y Px Py Hne). destruct (less2 x y); [|reflexivity]. f_equal. now apply IH.
+  Qed.
+
+  Lemma fold_ins_twin l : forall acc, Forall P l -> Forall P acc ->
+    StronglySorted (fun a b => less2 a b = false) acc ->
+    fold_left (fun rp x => ins less1 x rp) l acc = fold_left (fun rp x => ins less2 x rp) l acc.
+  Proof.
+    induction l as [|x l IH]; intros acc HPl HPa S; cbn [fold_left]; [reflexivity|].
+    inversion HPl as [|? ? Px HPl']; subst. rewrite (ins_twin x acc Px HPa S). apply IH; auto.
+    - rewrite Forall_forall. intros z Hz. apply (Permutation_in _ (ins_perm _ less2 x acc)) in Hz.
+      destruct Hz as [<-|Hz]; [exact Px|]. rewrite Forall_forall in HPa; auto.
+    - apply (ins_sorted_weak A less2 P irrefl2 trans2 total2); auto.
+  Qed.
+
+  Theorem gosort_twin l : Forall P l -> gosort less1 l = gosort less2 l.
+  Proof. intros HP. unfold gosort. f_equal. apply fold_ins_twin; auto; constructor. Qed.
+End GoSortTwin.
+
+(* traversal extensionality without any condition on the roots, from list-level equality of the sorts *)
+Section TravExt2.
+  Variable entries : omap.
+  Hypothesis WK : well_keyed entries.
+  Variables s1 s2 : sortfn.
+  Hypothesis sort_eq : forall l, Forall (P entries) l -> sort_desc s1 l = sort_desc s2 l.
+
+  Lemma push_nexts_P ns : forall stack seen md stack' seen' md',
+    Forall (P entries) stack ->
+    push_nexts entries ns (stack, seen, md) = (stack', seen', md') -> Forall (P entries) stack'.
+  Proof.
+    induction ns as [|c ns IH]; intros stack seen md stack' seen' md' HP; unfold push_nexts; cbn [fold_left].
+    - intros H. injection H as <- <- <-. exact HP.
+    - fold (push_nexts entries ns). unfold push_next at 2.
+      destruct (oget entries c) as [n|] eqn:G; [|now apply IH].
+      destruct (mem (e_hash n) seen); [now apply IH|]. apply IH. constructor; [|exact HP].
+      now apply (oget_P entries WK c n).
+  Qed.
+
+  Lemma trav_ext2 amount endh fuel : forall stack seen res cnt,
+    Forall (P entries) stack ->
+    trav fuel entries s1 amount endh stack seen res cnt = trav fuel entries s2 amount endh stack seen res cnt.
+  Proof.
+    induction fuel as [|f IH]; intros stack seen res cnt HP; destruct stack as [|e stack']; cbn [trav]; try reflexivity.
+    destruct ((0 <=? amount) && (amount <=? cnt)); [reflexivity|].
+    inversion HP as [|? ? Pe HP']; subst.
+    destruct (ohas res (e_hash e)); [now apply IH|].
+    destruct (match endh with Some h => N.eqb (e_hash e) h | None => false end); [reflexivity|].
+    fold (push_nexts entries (e_next e) (stack', e_hash e :: seen, false)).
+    destruct (push_nexts entries (e_next e) (stack', e_hash e :: seen, false)) as [[stack'' seen''] md] eqn:PN.
+    pose proof (push_nexts_P _ _ _ _ _ _ _ HP' PN) as HP2.
+    destruct md.
+    - rewrite (sort_eq stack'' HP2). apply IH. rewrite Forall_forall in *. intros x Hx. apply sort_desc_In in Hx. auto.
+    - now apply IH.
+  Qed.
+
+  Theorem traverse_ext2 roots amount endh : Forall (P entries) roots ->
+    trav (trav_fuel entries (sort_desc s1 roots)) entries s1 amount endh (sort_desc s1 roots) [] [] 0 =
+    trav (trav_fuel entries (sort_desc s2 roots)) entries s2 amount endh (sort_desc s2 roots) [] [] 0.
+  Proof.
+    intros HP. rewrite (sort_eq roots HP). apply trav_ext2.
+    rewrite Forall_forall in *. intros x Hx. apply sort_desc_In in Hx. auto.
+  Qed.
+End TravExt2.
